@@ -1,6 +1,6 @@
 (* C10 — The validator accepts exactly the structurally well-formed documents (rules validator; the part proved). *)
 From CE Require Import Model.Rules Model.RulesSpec Proofs.RulesInvariants Proofs.RulesStructure Proofs.RulesLimits
-  Proofs.RulesMarkers Proofs.RulesDocument.
+  Proofs.RulesMarkers Proofs.RulesDocument Proofs.RulesComplete.
 Open Scope N_scope.
 
 (* (a) A rejection is permanent and is reported at the first event that cannot be accepted. *)
@@ -59,6 +59,43 @@ Print Assumptions C10_after_top_level_object.
 Theorem C10_stack_structure : forall cfg es c, steps cfg init_rctx es = Some c -> WF c.
 Proof. exact steps_WF. Qed.
 Print Assumptions C10_stack_structure.
+
+(* (c) Completeness on the fragment without markers, references, chunked arrays, media and custom types
+   (Model/RulesSpec.v: [doc], [wf_doc], [flatten_doc]): every well-formed document tree - record types first,
+   one top-level value, maps with keyable pairwise-distinct keys, edges with three components and non-null
+   source and destination, nodes with a value, records of the declared arity, padding and comments
+   anywhere a value or a key or a container end may come - is accepted, provided it is within the object
+   and depth limits. *)
+Theorem C10_wf_documents_accepted :
+  forall cfg d, wf_doc cfg d = true ->
+    object_usage (flatten_doc cfg d) <= max_object_count cfg -> doc_height d <= max_container_depth cfg ->
+    accepts_document cfg (flatten_doc cfg d) = true.
+Proof. exact wf_doc_accepted. Qed.
+Print Assumptions C10_wf_documents_accepted.
+
+(* The full statement of C10, kept for reference: acceptance is equivalent to being the flattening of a
+   well-formed document (over the full grammar, with markers, references and chunked arrays).  Proved: the
+   right-to-left direction on the fragment above, and the invariants (b) in place of left-to-right. *)
+Definition C10_full_fragment : Prop :=
+  forall cfg es, accepts_document cfg es = true <->
+    exists d, wf_doc cfg d = true /\ flatten_doc cfg d = es /\
+              object_usage es <= max_object_count cfg /\ doc_height d <= max_container_depth cfg.
+
+Definition C10_tree : doc :=
+  {| d_pre := [TopTrivia TPad; TopRecType [114] [EStringArray AT_String [120]; EPosInt 2] [TPad]];
+     d_top := VT (TComment false [104;105])
+                (VMap [([TPad], EPosInt 1, VRecord [114] [VLeaf ENull; VT TPad (VLeaf (EFloat 0))] []);
+                       ([], ETrue, VEdge (VLeaf (EPosInt 1)) (VLeaf ENull) (VList [] [TPad]) []);
+                       ([], EStringArray AT_String [107], VNode (VLeaf ENull) [VLeaf (EUid [1;2]); VList [VLeaf EFalse] []] [])]
+                      [TPad]) |}.
+Example C10_tree_wf : wf_doc default_rcfg C10_tree = true.
+Proof. vm_compute. reflexivity. Qed.
+Example C10_tree_accepted : accepts_document default_rcfg (flatten_doc default_rcfg C10_tree) = true.
+Proof. vm_compute. reflexivity. Qed.
+Example C10_tree_bad_edge :
+  wf_doc default_rcfg {| d_pre := []; d_top := VEdge (VLeaf ENull) (VLeaf ENull) (VLeaf ETrue) [] |} = false /\
+  accepts_document default_rcfg (flatten_doc default_rcfg {| d_pre := []; d_top := VEdge (VLeaf ENull) (VLeaf ENull) (VLeaf ETrue) [] |}) = false.
+Proof. vm_compute. split; reflexivity. Qed.
 
 Example C10_example_document :
   accepts_document default_rcfg
